@@ -965,8 +965,54 @@ def dynamic_reset_and_item_defaults_stream(ctx, res):
             res.violate("C12:callable-default-not-fresh", "a callable default of an item schema was not evaluated anew for every item built from a map (two items share one result), or "
                         "the items report the field as user-defined", dict(case, tokens=repr(toks)[:200]))
 
+def environment_status_stream(ctx, res):
+    """a field whose value comes from a SET environment variable is not user-defined — in a fresh configuration and again after
+    `reset_value` — for every scalar field class that consults the environment, challenge fields included (their
+    `__setdefault__` is their own), at the root and in a nested section; an assignment makes it user-defined, a reset takes that
+    back"""
+    import os
+    import cincoconfig as cc
+    from cincoconfig.support import is_value_defined, reset_value
+    kinds = [("StringField", lambda **kw: cc.StringField(**kw), "text"), ("IntField", lambda **kw: cc.IntField(**kw), "7"), ("BoolField", lambda **kw: cc.BoolField(**kw), "true"),
+             ("ChallengeField", lambda **kw: cc.ChallengeField("sha256", **kw), "pass-from-env"), ("ChallengeField(default)", lambda **kw: cc.ChallengeField("md5", default="d", **kw), "pass-from-env"),
+             ("SecureField", lambda **kw: cc.SecureField(**kw), "sec-from-env"), ("HostnameField", lambda **kw: cc.HostnameField(**kw), "example.com"),
+             ("LogLevelField", lambda **kw: cc.LogLevelField(**kw), "debug")]
+    for name, mk, text in kinds:
+        s = cc.Schema()
+        s.top = mk(env="CINCO_T_C12E_TOP")
+        s.auth.token = mk(env="CINCO_T_C12E_TOKEN")
+        s.auth.plain = cc.IntField(default=1)
+        os.environ["CINCO_T_C12E_TOP"] = text
+        os.environ["CINCO_T_C12E_TOKEN"] = text
+        try:
+            case = {"stream": "environment-status", "class": name}
+            res.case(stable(case), kind="environment-status")
+            try:
+                cfg = s()
+            except Exception:  # noqa
+                continue
+            bad = []
+            for label, owner, key in (("top", cfg, "top"), ("auth.token", cfg.auth, "token")):
+                if is_value_defined(owner, key):
+                    bad.append([label, "fresh configuration: reported as user-defined"])
+                try:
+                    setattr(owner, key, text)
+                    if not is_value_defined(owner, key):
+                        bad.append([label, "after an assignment: not user-defined"])
+                    reset_value(owner, key)
+                    if is_value_defined(owner, key):
+                        bad.append([label, "after reset_value: still user-defined"])
+                except Exception as e:  # noqa
+                    bad.append([label, "raised %s" % type(e).__name__])
+            if bad:
+                res.violate("C12:status:environment", "a field whose value comes from a set environment variable has the wrong user-defined status", dict(case, problems=bad[:4]))
+        finally:
+            os.environ.pop("CINCO_T_C12E_TOP", None)
+            os.environ.pop("CINCO_T_C12E_TOKEN", None)
+
 def run(ctx, n_quick=250, n_thorough=8000):
     res = Result()
+    guard(res, "C12", environment_status_stream, ctx, res)
     guard(res, "C12", dynamic_reset_and_item_defaults_stream, ctx, res)
     guard(res, "C12", refused_write_hook_stream, ctx, res)
     guard(res, "C12", lambda: P.run_stream(ctx, res, "C12", ctx.n(n_quick, n_thorough), oracle, gen_ops=gen_ops))
